@@ -58,6 +58,28 @@ def nestG(n, pattern):
     return w
 NEST_PATTERNS = [['pb'], ['pl'], ['ub'], ['ul'], ['pb', 'ul'], ['pl', 'ub'], ['ul', 'pl', 'pb'], ['pb', 'pb', 'pl']]
 
+def scale_shapes():
+    """inputs whose size is governed by one parameter n, one per loop / collection of the decoders"""
+    H = refcbor.head
+    def i4(i): return b'\x1a' + (65536 + i).to_bytes(4, 'big')
+    def t5(i): return b'\x65' + ('%05x' % i).encode()
+    sig = b'\x83\x40\xa0\x40'; rcp = b'\x83\x40\xa0\xf6'
+    return [
+        ('header-int-labels', 'Header', lambda n: H(5, n) + b''.join(i4(i) + b'\x00' for i in range(n))),
+        ('header-text-labels', 'Header', lambda n: H(5, n) + b''.join(t5(i) + b'\x00' for i in range(n))),
+        ('protected-header-labels', 'CoseSign1', lambda n: b'\x84' + H(2, len(H(5, n)) + 6 * n) + H(5, n) + b''.join(i4(i) + b'\x00' for i in range(n)) + b'\xa0\xf6\x40'),
+        ('header-crit', 'Header', lambda n: b'\xa1\x02' + H(4, n) + b''.join(t5(i) for i in range(n))),
+        ('header-counter-signatures', 'Header', lambda n: b'\xa1\x07' + H(4, n) + sig * n),
+        ('key-params', 'CoseKey', lambda n: H(5, n + 1) + b'\x01\x04' + b''.join(i4(i) + b'\x00' for i in range(n))),
+        ('key-ops', 'CoseKey', lambda n: b'\xa2\x01\x04\x04' + H(4, n) + b''.join(t5(i) for i in range(n))),
+        ('keyset', 'CoseKeySet', lambda n: H(4, n) + b'\xa1\x01\x04' * n),
+        ('claims-names', 'ClaimsSet', lambda n: H(5, n) + b''.join(t5(i) + b'\x00' for i in range(n))),
+        ('sign-signatures', 'CoseSign', lambda n: b'\x84\x40\xa0\xf6' + H(4, n) + sig * n),
+        ('encrypt-recipients', 'CoseEncrypt', lambda n: b'\x84\x40\xa0\xf6' + H(4, n) + rcp * n),
+        ('kdf-trailing', 'CoseKdfContext', lambda n: H(4, n + 4) + b'\x01\x83\xf6\xf6\xf6\x83\xf6\xf6\xf6\x82\x18\x80\x40' + b'\x40' * n),
+        ('value-array', 'Value', lambda n: H(4, n) + b'\x00' * n),
+    ]
+
 # ===================================================================== C01
 @register
 class C01(Prop):
@@ -126,9 +148,40 @@ class C01(Prop):
             out.append(mk('dec Header b' + (b'\xa1\x18\x63' + b'\xc6' * d + b'\x00').hex(), k='deep-child', n=d))
         out.append(mk('dec Value b' + (b'\x5f' + b'\x41\x00' * 200000 + b'\xff').hex(), k='chunks-child', n=200000))
         out.append(mk('dec CoseSign1 b' + (b'\x84\x40\xa0\x5a\x00\x10\x00\x00' + b'\x00' * (1 << 20) + b'\x40').hex(), k='big-child', n=1 << 20))
+        n0 = 25000 if tier == 'quick' else 100000
+        for shape, t, f in scale_shapes():
+            for n in (n0, 4 * n0):
+                out.append(mk('time %s b%s' % (t, f(n).hex()), k='scale', shape=shape, n=n, timeout=60 if tier == 'quick' else 180))
+        return out
+    def post(self, ops, impl):
+        """time proportional to the input: each scaling shape is decoded at size n and 4n (own process each); the typed decode, the
+        re-encode and clone+compare+drop must not grow much faster than the input (quadratic growth gives 16x for 4x the input)."""
+        by = {}
+        for o, a in zip(ops, impl):
+            m = o['meta']
+            if m.get('k') != 'scale': continue
+            by.setdefault(m['shape'], {})[m['n']] = (o, a)
+        out = []
+        for shape, d in sorted(by.items()):
+            ns = sorted(d)
+            if len(ns) != 2: continue
+            (o1, a1), (o2, a2) = d[ns[0]], d[ns[1]]
+            for o, a in ((o1, a1), (o2, a2)):
+                if a in ('timeout', 'abort') or a.startswith('panic'):
+                    out.append(dict(op=o['op'][:200] + ('…' if len(o['op']) > 200 else ''), meta=dict(o['meta'], gen='vlib/props_streams.py scale_shapes'), impl=a, model=None,
+                                    why='decoding a %d-element %s did not finish normally (%s): time not proportional to the input' % (o['meta']['n'], shape, a)))
+            if not (a1.startswith('ok ') and a2.startswith('ok ')): continue
+            t1 = [int(x) for x in a1.split(' ')[1:5]]; t2 = [int(x) for x in a2.split(' ')[1:5]]
+            for name, i in (('decode', 0), ('re-encode', 2), ('clone/compare/drop', 3)):
+                if t2[i] > 3000000 and t2[i] > 10 * max(t1[i], 20000):
+                    out.append(dict(op=o2['op'][:200] + '…', meta=dict(o2['meta'], gen='vlib/props_streams.py scale_shapes'), impl=a2, model=None,
+                                    why='%s of %s: %d µs at n=%d but %d µs at n=%d (more than 10x for 4x the input)' % (name, shape, t1[i], ns[0], t2[i], ns[1])))
         return out
     def impl_pred(self, o, impl):
         k = o['meta'].get('k')
+        if k == 'scale':
+            if impl.startswith('err') or impl.endswith('enc-fail') or impl == 'bad-op': return 'scaling shape %s was not accepted / re-encoded (generator out of date?)' % o['meta'].get('shape')
+            return None
         if k == 'followup':
             return None      # documented panics allowed there; compared with the model (which panics exactly when documented)
         if impl.startswith('panic') or ' panic' in impl: return 'panic while decoding / re-encoding untrusted bytes'
